@@ -1,6 +1,7 @@
 package core
 
 import (
+	"io"
 	"fmt"
 	"net"
 	"strings"
@@ -100,13 +101,20 @@ type dialRecorder struct {
 // meteredConn is a pass-through net.Conn wrapper installed by the dial hook.
 type meteredConn struct {
 	net.Conn
-	n *int64
+	n       *int64
+	severed int32 // writes fail as on a connection the other side has closed; reads are not affected
 }
 
 func (m *meteredConn) Write(b []byte) (int, error) {
+	if atomic.LoadInt32(&m.severed) != 0 {
+		return 0, io.EOF
+	}
 	atomic.AddInt64(m.n, int64(len(b)))
 	return m.Conn.Write(b)
 }
+
+// lastWrapped is the wrapper installed by the most recent (re)dial of a case.
+var lastWrapped atomic.Value // *meteredConn
 
 var meteredBytes int64
 
@@ -114,7 +122,9 @@ func (d *dialRecorder) Name() string { return "c13dial" }
 func (d *dialRecorder) PostDial(s erpc.PreSession, isRedial bool) *erpc.Status {
 	if d.wrapConn {
 		s.ModifySocket(func(conn net.Conn) (net.Conn, erpc.ProtoFunc) {
-			return &meteredConn{Conn: conn, n: &meteredBytes}, nil
+			mc := &meteredConn{Conn: conn, n: &meteredBytes}
+			lastWrapped.Store(mc)
+			return mc, nil
 		})
 		atomic.AddInt32(&d.wrapped, 1)
 	}
@@ -170,10 +180,10 @@ type c13Case struct {
 }
 
 func genC13(t *rapid.T) c13Case {
-	c := c13Case{Wrap: rapid.IntRange(0, 3).Draw(t, "wrap") == 0, Proto: rapid.SampledFrom([]string{"", "", "raw", "json", "pb"}).Draw(t, "proto"), Budget: rapid.SampledFrom([]int32{1, 3, -1}).Draw(t, "budget"), SetID: rapid.Bool().Draw(t, "setid"), Callers: rapid.IntRange(1, 4).Draw(t, "callers"), Secure: rapid.IntRange(0, 2).Draw(t, "secure") == 0}
+	c := c13Case{Wrap: rapid.IntRange(0, 2).Draw(t, "wrap") == 0, Proto: rapid.SampledFrom([]string{"", "", "raw", "json", "pb"}).Draw(t, "proto"), Budget: rapid.SampledFrom([]int32{1, 3, -1}).Draw(t, "budget"), SetID: rapid.Bool().Draw(t, "setid"), Callers: rapid.IntRange(1, 4).Draw(t, "callers"), Secure: rapid.IntRange(0, 2).Draw(t, "secure") == 0}
 	n := rapid.IntRange(1, 5).Draw(t, "nactions")
 	for i := 0; i < n; i++ {
-		a := rapid.SampledFrom([]string{"kill-idle", "kill-idle", "kill-during-call", "calls", "outage-short", "outage-exhaust", "hook-rejects-redials", "traffic-during-outage", "traffic-during-outage", "reverse-call-in-flight", "reverse-call-in-flight", "refused-then-accepted", "refused-then-accepted"}).Draw(t, "action")
+		a := rapid.SampledFrom([]string{"kill-idle", "kill-idle", "kill-during-call", "calls", "outage-short", "outage-exhaust", "hook-rejects-redials", "traffic-during-outage", "traffic-during-outage", "reverse-call-in-flight", "reverse-call-in-flight", "refused-then-accepted", "refused-then-accepted", "writer-first-loss", "writer-first-loss"}).Draw(t, "action")
 		c.Actions = append(c.Actions, a)
 		if (a == "outage-exhaust" || a == "hook-rejects-redials") && c.Budget > 0 {
 			break // the session ends there
@@ -379,6 +389,42 @@ func runC13(c c13Case) []string {
 			if stabilised(before, fmt.Sprintf("action %d: connection killed while idle", ai)) {
 				checkIdentity("after an idle loss")
 				okCall("after an idle loss")
+			}
+		case "writer-first-loss":
+			// the loss shows on the writing side first: a write fails as on a connection closed
+			// by the other side while the session's reader is still blocked in its read; the
+			// caller's goroutine re-establishes the session, and the reader of the replaced
+			// connection ends afterwards
+			if !c.Wrap {
+				continue
+			}
+			mc, _ := lastWrapped.Load().(*meteredConn)
+			if mc == nil {
+				continue
+			}
+			atomic.StoreInt32(&mc.severed, 1)
+			rid := fmt.Sprintf("wf%d", ai)
+			res := new(LibRes)
+			cmd := sess.AsyncCall(route, &LibArg{Rid: rid, Act: "ret", Val: rid}, res, make(chan erpc.CallCmd, 1), secureSetting...)
+			if !vt.WaitClosed(cmd.Done()) {
+				failf("%s", vt.Hang("completion of a call whose write met the loss first"))
+				break
+			}
+			if cmd.StatusOK() && res.Val != rid {
+				failf("a call whose write met the loss first completed OK with %+v", *res)
+			} else if !cmd.StatusOK() && !isConnErr(cmd.Status()) {
+				failf("a call whose write met the loss first completed with %v, want OK or a connection error", cmd.Status())
+			}
+			if stabilised(before, fmt.Sprintf("action %d: loss noticed by a writer first", ai)) {
+				// the reader of the replaced connection has ended by now or ends soon; it must not
+				// take the re-established session with it
+				time.Sleep(time.Duration(1+ai%3) * 500 * time.Microsecond)
+				if cmd.StatusOK() == false && lib.Calls(rid) == 1 {
+					failf("a call re-sent over the re-established connection and handled there, with no further loss, completed with %v", cmd.Status())
+				}
+				checkIdentity("after a loss noticed by a writer first")
+				okCall("after a loss noticed by a writer first")
+				okCall("after a loss noticed by a writer first (2)")
 			}
 		case "kill-during-call":
 			rid := fmt.Sprintf("mid%d", ai)
